@@ -2,7 +2,7 @@ SPECIFICATION SpecMC
 CONSTANTS
   MaxSteps = 2
   Depth = 0
-  OpNames = {"AddHeader", "AddFooterWithPageNumber", "AddFormattedHeader", "SetDifferentFirstPage", "PageSet", "AddImage", "AddListItem", "ToBytes", "Reopen", "Render"}
+  OpNames = {"AddHeader", "AddFooterWithPageNumber", "AddFormattedHeader", "SetDifferentFirstPage", "AddImage", "ToBytes", "Reopen", "Render"}
   HfC = {"h", "f"}
   KindsC = {"default", "first"}
   TextC = {"plain", "var"}
